@@ -28,7 +28,13 @@ fn ro_canon(o: &ReadOptions) -> String {
     )
 }
 
-pub fn main(_args: &[String]) -> i32 {
+static BASE: std::sync::OnceLock<std::path::PathBuf> = std::sync::OnceLock::new();
+static PCOUNT: std::sync::atomic::AtomicUsize = std::sync::atomic::AtomicUsize::new(0);
+
+pub fn main(args: &[String]) -> i32 {
+    if let Some(p) = args.first() {
+        let _ = BASE.set(std::path::PathBuf::from(p));
+    }
     let stdin = std::io::stdin();
     let out = std::io::stdout();
     let mut out = out.lock();
@@ -38,7 +44,7 @@ pub fn main(_args: &[String]) -> i32 {
         if toks.is_empty() {
             continue;
         }
-        let res = std::panic::catch_unwind(|| match toks[0] {
+        let res = std::panic::catch_unwind(std::panic::AssertUnwindSafe(|| match toks[0] {
             "ttl" => {
                 let s = String::from_utf8_lossy(&unxhex(toks[1])).to_string();
                 let a = parse_ttl(&s).ok();
@@ -98,8 +104,47 @@ pub fn main(_args: &[String]) -> i32 {
                     .unwrap_or("REJECTED");
                 format!("q={} roundtrip={}", xhex(q.as_bytes()), back)
             }
+            // serde_json text -> Value -> text
+            "J" => match serde_json::from_slice::<serde_json::Value>(&unxhex(toks[1])) {
+                Ok(v) => format!("OK {}", xhex(&serde_json::to_vec(&v).unwrap())),
+                Err(_) => "ERR".into(),
+            },
+            // serde_json text -> Frame -> text (what deserialize_frame / the import route do)
+            "F" => match serde_json::from_slice::<xs::store::Frame>(&unxhex(toks[1])) {
+                Ok(f) => format!("OK {}", xhex(&serde_json::to_vec(&f).unwrap())),
+                Err(_) => "ERR".into(),
+            },
+            // a frame whose meta is built in memory (as nu's value_to_json does), nested as the spec says
+            // ('a' = array, 'o' = object, outside in), through Store::append and back through Store::get
+            "P" => {
+                let mut v = serde_json::Value::Null;
+                for c in toks[1].chars().rev() {
+                    v = match c {
+                        'a' => serde_json::Value::Array(vec![v]),
+                        'o' => serde_json::json!({ "k": v }),
+                        _ => v,
+                    };
+                }
+                // a poisoned store cannot be repaired through the API (remove reads the frame first): one store per line
+                let n = PCOUNT.fetch_add(1, std::sync::atomic::Ordering::SeqCst);
+                let base = BASE.get().expect("codec mode needs a scratch path for P lines");
+                let store = xs::store::Store::new(base.join(format!("p{n}")));
+                let frame = xs::store::Frame::builder("poison", xs::store::ZERO_CONTEXT).meta(v).build();
+                let text = xhex(&serde_json::to_vec(&frame).unwrap());
+                match store.append(frame) {
+                    Err(_) => format!("rejected {}", text),
+                    Ok(f) => {
+                        let back = std::panic::catch_unwind(std::panic::AssertUnwindSafe(|| store.get(&f.id)));
+                        match back {
+                            Ok(Some(g)) if g == f => format!("accepted readable {}", text),
+                            Ok(_) => format!("accepted DIFFERENT {}", text),
+                            Err(_) => format!("accepted POISON {}", text),
+                        }
+                    }
+                }
+            }
             _ => "?".into(),
-        });
+        }));
         writeln!(out, "{}", res.unwrap_or_else(|_| "panic".into())).unwrap();
     }
     0
